@@ -108,6 +108,7 @@ func (g *ExecutionGraph) cycleDfs(t string, visited map[string]bool) error {
 			return err
 		}
 	}
+	delete(visited, t)
 
 	return nil
 }
